@@ -1,5 +1,6 @@
 import HdVerif.Model.Json
 import HdVerif.Model.Codec
+import HdVerif.Model.CodecGlue
 open Lean HdVerif HdVerif.Drv HdVerif.Bits HdVerif.Gen HdVerif.Codec
 
 def getParams (j : Json) : Except String Params := do
@@ -39,6 +40,11 @@ def handlers : List (String × Handler) := [
   ("pydicomOneBit", fun j => do
     pure (exceptToJson intsToJson (pydicomOneBit (← getNat j "rows") (← getNat j "cols") (← getNat j "samples")
       (← getNatList j "bytes")))),
+  -- a reader of the image classes on one frame's raw bytes: the data set's attributes as `decode_frame` arguments (T13g)
+  ("readFrame", fun j => do
+    let m : PixelModule := ⟨← getStr j "ts", ← getNat j "rows", ← getNat j "cols", ← getNat j "samples", ← getInt j "ba",
+      ← getOptInt j "bs", ← getStr j "pi", ← getInt j "pr", ← getOptInt j "planar"⟩
+    pure (exceptToJson intsToJson (readFrame noCodec id m (← getNatList j "bytes") (← getInt j "index")))),
   ("isEncapsulated", fun j => do pure (okJson (Json.bool (isEncapsulated (← getStr j "ts")))))
 ]
 
